@@ -152,6 +152,8 @@ func (e *svcEnv) do(ctx context.Context, op svcOp) string {
 	switch op.K {
 	case "add":
 		return errStr(s.AddMachine(ctx, "counter", op.Id, "start", nil))
+	case "addghost":
+		return errStr(s.AddMachine(ctx, "no-such-spec", op.Id, "start", nil))
 	case "addop":
 		// the add operation of the service protocol (what the TCP, HTTP and WebSocket front ends run), for a
 		// specification with parameter defaults; the client gives no bindings
@@ -548,7 +550,7 @@ func C16(c *vh.Ctx) {
 	maxLen := c.Pick(4, 5)
 	alphabet := []svcOp{{K: "add", Id: "m1"}, {K: "add", Id: "m2"}, {K: "add", Id: ""}, {K: "rem", Id: "m1"}, {K: "rem", Id: "ghost"}, {K: "inc", Id: "m1"}, {K: "bcast"}, {K: "poison", Id: "m1"}, {K: "half"}, {K: "down"}, {K: "up"}, {K: "failnext"}, {K: "failcommit"}}
 	c.Bound("fault_sequence_max", maxLen)
-	c.Rule("(sequential fault sequences) every operation sequence up to the bound over {add m1, add m2, add \"\", remove m1, remove a machine that does not exist, process->m1, process broadcast, process a message that makes m1's bindings unserialisable, a broadcast that only some machines of the batch survive (the others end with a value that cannot be stored), store stops working, store works again, the next write transaction fails before it starts, the next write transaction fails at commit} on a real Service over a real bolt file (tmpfs); after every operation the in-memory crew must equal the stored crew (read back through a second handle while the store is down), and an operation that failed must not have changed the crew; also sequences of up to three operations in which add / remove / process requests arrive with a context that has already ended, and in which machines are added through the add operation of the service protocol for a specification with parameter defaults, and in which the crew is read through the protocol's read-crew operation between requests that reached the service directly (as timers and emitted messages do). (schedules) 2-3 client threads issuing process / add / remove / read-crew with yield points inside the machine's action and at the shimmed crew lock, store healthy or failing, every schedule within the deviation bound; the per-operation results and the final (memory, store) must equal those of some sequential order of the operations (the service itself, run sequentially, is the reference), and memory must equal the store. states = sequences + scenarios, transitions = operations + scheduler steps.")
+	c.Rule("(sequential fault sequences) every operation sequence up to the bound over {add m1, add m2, add \"\", remove m1, remove a machine that does not exist, process->m1, process broadcast, process a message that makes m1's bindings unserialisable, a broadcast that only some machines of the batch survive (the others end with a value that cannot be stored), store stops working, store works again, the next write transaction fails before it starts, the next write transaction fails at commit} on a real Service over a real bolt file (tmpfs); after every operation the in-memory crew must equal the stored crew (read back through a second handle while the store is down), and an operation that failed must not have changed the crew; also sequences of up to three operations in which add / remove / process requests arrive with a context that has already ended, and in which machines are added through the add operation of the service protocol for a specification with parameter defaults, and in which the crew is read through the protocol's read-crew operation between requests that reached the service directly (as timers and emitted messages do), and in which a machine is added whose specification cannot be loaded, followed by messages to the others and to all. (schedules) 2-3 client threads issuing process / add / remove / read-crew with yield points inside the machine's action and at the shimmed crew lock, store healthy or failing, every schedule within the deviation bound; the per-operation results and the final (memory, store) must equal those of some sequential order of the operations (the service itself, run sequentially, is the reference), and memory must equal the store. states = sequences + scenarios, transitions = operations + scheduler steps.")
 	var idx uint64
 	var rec func(cur []svcOp)
 	rec = func(cur []svcOp) {
@@ -573,12 +575,14 @@ func C16(c *vh.Ctx) {
 	// memory and store move together
 	{
 		dead := []svcOp{{K: "add", Id: "m1"}, {K: "inc", Id: "m1"}, {K: "add", Id: "m1", Dead: true}, {K: "add", Id: "m2", Dead: true}, {K: "rem", Id: "m1", Dead: true}, {K: "inc", Id: "m1", Dead: true}, {K: "bcast", Dead: true}, {K: "failnext"},
-			{K: "addop", Id: "m1"}, {K: "addop", Id: "m3"}, {K: "inc", Id: "m3"}, {K: "readop"}}
+			{K: "addop", Id: "m1"}, {K: "addop", Id: "m3"}, {K: "inc", Id: "m3"}, {K: "readop"},
+			// a machine whose specification cannot be loaded (nothing checks the name when it is added), and a broadcast
+			{K: "addghost", Id: "g"}, {K: "bcast"}}
 		var recDead func(cur []svcOp)
 		recDead = func(cur []svcOp) {
 			special := false
 			for _, o := range cur {
-				if o.Dead || o.K == "addop" || o.K == "readop" {
+				if o.Dead || o.K == "addop" || o.K == "readop" || o.K == "addghost" {
 					special = true
 				}
 			}
